@@ -13,7 +13,8 @@ def S(c): return 'S %d' % c
 STD = [('std', 'debug')]
 ALL3 = [('std', 'debug'), ('alloc', 'debug'), ('none', 'debug')]
 ALL6 = ALL3 + [('std', 'release'), ('alloc', 'release'), ('none', 'release')]
-QUICK4 = ALL3 + [('none', 'release')]      # release differs from debug by more than speed: overflow wraps, debug_assert! bodies vanish
+QUICK4 = ALL3 + [('none', 'release')]
+QUICK5 = QUICK4 + [('std', 'release')]      # release differs from debug by more than speed: overflow wraps, debug_assert! bodies vanish
 
 def scale(tier, q, t): return q if tier == 'quick' else t
 
@@ -142,6 +143,42 @@ def id_pair_cases(rng, tier):
                 out.append(L(0, d, gen.sentence(b'55M', 0, 2, 1, a)))
                 out.append(L(0, d, gen.sentence(b'66', 0, 2, 2, b)))
                 out.append(L(0, d, gen.sentence(b'77', 0, 2, 2, a)))
+    return out
+
+def field_values(name, w):
+    """the handful of values of a field at which special treatment lives"""
+    m = (1 << w) - 1
+    vals = {0, 1, m, m - 1}
+    for table in (gen.MAX_VALID, gen.NOT_AVAILABLE):
+        v = gen._scaled(name, w, table)
+        if v is not None: vals |= {v, (v + 1) & m, (v - 1) & m}
+    return sorted(vals)
+
+def pairwise_cases(rng, tier, types=None):
+    """every pair of fields of every layout at every pair of their special values (zero, one, the two largest,
+    the not-available code, the largest meaningful value and their neighbours), the other fields random: any
+    dependence of one field's decoding on ONE other field's value shows on one of these"""
+    out = []
+    for t in (types or gen.SUPPORTED):
+        variants = [({}, gen.LAYOUTS[t])]
+        if t == 24: variants = [({'part': 0}, gen.LAYOUTS[t] + gen.PART_A), ({'part': 1}, gen.LAYOUTS[t] + gen.PART_B)]
+        elif t in (7, 13): variants = [({}, gen.LAYOUTS[t] + [(n + str(i), w) for i in range(2) for (n, w) in gen.ACK])]
+        elif t == 20: variants = [({}, gen.LAYOUTS[t] + [(n + str(i), w) for i in range(2) for (n, w) in gen.RESERVATION])]
+        for fixed, fl in variants:
+            names = [(n, w) for (n, w) in fl if n != 'type' and n not in fixed and not (w > 40)]
+            for i in range(len(names)):
+                for j in range(i + 1, len(names)):
+                    (a, wa), (b, wb) = names[i], names[j]
+                    va_all, vb_all = field_values(a, wa), field_values(b, wb)
+                    if tier == 'quick' and len(va_all) * len(vb_all) > 30:
+                        va_all = rng.sample(va_all, min(len(va_all), 6)); vb_all = rng.sample(vb_all, min(len(vb_all), 5))
+                    for va in va_all:
+                        for vb in vb_all:
+                            vals = gen.rand_values(rng, fl, 'random')
+                            vals.update(fixed); vals['type'] = t; vals[a] = va; vals[b] = vb
+                            bits = gen.bits_of(fl, vals)
+                            if t in (12, 14): bits += '000001' * 3
+                            out.append(M(gen.pack(bits)))
     return out
 
 def bulk_cases(rng, tier, types=None, per_type=None):
